@@ -460,6 +460,18 @@ func RunC15Scenario(sc *Scenario) (vd *Verdict) {
 					idx = 0
 				}
 				body = mutatePayload(all, kind, idx)
+				if op.M["afterCont"] == true && idx >= 1 && sc.Knob("web.batchSize", 10) >= 10 && !c15MayIgnore(kind) {
+					// (with a smaller handler batch the elements in front of the defect are stored before it is met, and the hub
+					// stores a posted continuation element like an entity: left out of this oracle)
+					// a continuation element (as a client gets one at the end of every page it reads) sits in front of
+					// the defective element: what follows it is still part of the payload
+					var l []any
+					if json.Unmarshal(body, &l) == nil && idx <= len(l) {
+						l = append(l[:idx:idx], append([]any{map[string]any{"id": "@continuation", "token": "MTIz"}}, l[idx:]...)...)
+						body, _ = json.Marshal(l)
+						r.Stats["malformed_after_continuation"]++
+					}
+				}
 				maxPrefix = idx - 1
 				if maxPrefix < 0 {
 					maxPrefix = 0
